@@ -74,7 +74,10 @@ def main(chk, prop, spec, tier, seed):
         jobs.append(("D", "miri", ["c13", "--depths", "1,2"], {"MLX_SHARD": f"{i}/8"}))
     for i in range(4):
         jobs.append(("A", "miri-release", ["c13", "--depths", "1,1"], {"MLX_SHARD": f"{i}/4"}))
-    jobs.append(("D", "miri", ["c16", "--small", "--gap", chk.longest_gap()], None))
+    gaps = ["--gap", chk.longest_gap()]
+    for g in chk.structural_extras():
+        gaps += ["--gap", g]
+    jobs.append(("D", "miri", ["c16", "--small"] + gaps, None))
 
     def run_job(j):
         cfg, variant, argv, envx = j
